@@ -187,15 +187,17 @@ def make_screen(W, spec):
         def _script(s, cb): return s._run(s._take(cb))
         def setup(s, args):
             LOG.append(("cb", s.sid, "setup", args)); r = s._script("setup")
-            if r == "fail_before": return False
+            if r == "fail_before":
+                xlog(("cb<", s.sid, "setup", False)); return False
             UIScreen.setup(s, args)
+            xlog(("cb<", s.sid, "setup", r != "fail_after"))
             return r != "fail_after"
         def refresh(s, args=None):
             LOG.append(("cb", s.sid, "refresh", args)); ent = s._take("refresh"); UIScreen.refresh(s, args)
             if spec.get("text"): s.window.add(TextWidget(spec["text"]))
-            s._run(ent)
+            s._run(ent); xlog(("cb<", s.sid, "refresh"))
         def show_all(s):
-            LOG.append(("cb", s.sid, "show")); ent = s._take("show"); UIScreen.show_all(s); s._run(ent)
+            LOG.append(("cb", s.sid, "show")); ent = s._take("show"); UIScreen.show_all(s); s._run(ent); xlog(("cb<", s.sid, "show"))
         def prompt(s, args=None):
             LOG.append(("cb", s.sid, "prompt", args)); r = s._script("prompt")
             if r == "none": return None
@@ -206,7 +208,7 @@ def make_screen(W, spec):
             if r == "NONE": return None
             return RET.get(r, r)
         def closed(s):
-            LOG.append(("cb", s.sid, "closed")); s._script("closed")
+            LOG.append(("cb", s.sid, "closed")); s._script("closed"); xlog(("cb<", s.sid, "closed"))
     return Scr()
 
 def run_real(case, loopkind="main"):
@@ -271,3 +273,51 @@ def run_real(case, loopkind="main"):
             SESS.dead = True; SESS.gate.release(); t.join(2)
     run_real.xlog = [list(x) for x in XLOG]; run_real.stderr = err.getvalue()
     return outcome, snapshot, out.getvalue()
+
+
+def run_inputs(case):
+    """C18: drive InputHandler / PasswordInputHandler objects directly through their public API.
+    ops: ["req", i, skip, hidden] | ["deliver"] | ["proc"] | ["wait", i]"""
+    global SESS
+    from simpleline.input.input_handler import InputHandler, PasswordInputHandler
+    SESS = Session(case["stdin"]); LOG.clear(); Log.deliver_at = set(); del XLOG[:]; _QUIDS.clear(); OUTBUF[0] = None
+    App.initialize(); App.get_configuration().width = 80
+    loop = App.get_event_loop()
+    handlers = {}; calls = {}; events = []
+    out = io.StringIO(); err = io.StringIO(); old = sys.stdout, sys.stderr; sys.stdout, sys.stderr = out, err; OUTBUF[0] = out
+    class Requester:
+        def __init__(s, i): s.i = i
+        def __str__(s): return "R%d" % s.i
+    try:
+        for op in case["ops"]:
+            k = op[0]
+            try:
+                if k == "req":
+                    _, i, skip, hidden = op
+                    h = (PasswordInputHandler if hidden else InputHandler)(source=Requester(i))
+                    if hidden: h.set_pass_func(lambda prompt: (sys.stdout.write(prompt), fake_input())[1])
+                    h.skip_concurrency_check = skip
+                    calls[i] = []
+                    h.set_callback(lambda v, i=i: calls[i].append(v))
+                    handlers[i] = h
+                    h.get_input("p%d" % i)
+                    events.append(["req", i, "ok"])
+                elif k == "deliver":
+                    events.append(["deliver", deliver_hook()])
+                elif k == "proc":
+                    for _ in range(4): loop.process_signals()
+                    events.append(["proc"])
+                elif k == "wait":
+                    handlers[op[1]].wait_on_input(); events.append(["wait", op[1], "returned"])
+            except KeyError as e:
+                events.append([k] + list(op[1:2]) + ["KeyError", str(e.args[0]) if e.args else ""])
+            except Blocked:
+                events.append([k] + list(op[1:2]) + ["blocked"])
+            except Budget:
+                events.append([k] + list(op[1:2]) + ["livelock"])
+    finally:
+        sys.stdout, sys.stderr = old; OUTBUF[0] = None
+        for t in [t for t in threading.enumerate() if t.name == "SimplelineInputThread"]:
+            SESS.dead = True; SESS.gate.release(); t.join(2)
+    state = {str(i): {"value": h.value, "received": h.input_received(), "successful": h.input_successful(), "callbacks": calls[i]} for i, h in handlers.items()}
+    return {"events": events, "handlers": state, "reads": [e[1] for e in LOG if e[0] == "read"], "out": out.getvalue()}
